@@ -31,7 +31,9 @@ BKeys    == Reserved \cup Custom
 \* claim values: absent, the default written by PasetoBuilder::default(), or a caller value
 Absent == "absent"
 Dflt   == "dflt"
-CallerVals == {"v1", "v2", "v3"}
+\* "wv1": the claim object {key: v1} itself stored as the value (what extend_claims does with a boxed
+\* claim: it stores the serialisable as it is, without the unwrapping set_claim performs)
+CallerVals == {"v1", "v2", "v3", "wv1", "wv2"}
 
 NoDup == "-"
 
@@ -111,6 +113,9 @@ Op(op, k, v) == [op |-> op, k |-> k, v |-> v]
 Apply(b, o) ==
   CASE o.op = "set"       -> SetClaim(b, o.k, o.v)
     [] o.op = "remove"    -> RemoveClaim(b, o.k)
+    \* GenericBuilder::extend_claims with one entry: a plain value / a boxed claim object
+    [] o.op = "extend"    -> GSet(b, o.k, o.v)
+    [] o.op = "extendw"   -> GSet(b, o.k, "w" \o o.v)
     [] o.op = "ack"       -> Ack(b)
     [] o.op = "footer"    -> SetFooter(b, o.v)
     [] o.op = "assertion" -> SetAssertion(b, o.v)
